@@ -40,7 +40,7 @@ FAMILIES: dict[str, dict] = {
     "push": {"grammars": ['a = { PUSH("x" | "y") ~ POP }', 'a = { PUSH("x") ~ PUSH("y") ~ PEEK_ALL }', 'a = { PUSH("x") ~ PUSH("y") ~ POP_ALL ~ DROP? }', 'a = { PUSH("x") ~ PUSH("y") ~ PEEK[0..1] ~ PEEK[..] ~ PEEK[-1..] }', 'a = { PUSH_LITERAL("y") ~ PEEK ~ DROP ~ "x"? ~ DROP? }', 'a = { PEEK | "x" }', 'a = { POP | "x" }', 'a = { POP_ALL ~ "x" }', 'a = { PEEK[..] ~ "x" }', 'a = { PEEK_ALL ~ "x" }', 'a = { PUSH("x"*) ~ "y" ~ PEEK ~ "y" }', 'a = { PUSH("") ~ POP ~ "x" }', 'a = { PUSH("x"?) ~ !PEEK ~ "y" | "x" ~ "y" }', 'a = { PUSH("x"*) ~ "y" ~ PEEK_ALL ~ PEEK[..] ~ POP_ALL }'], "alphabet": "xy", "n": 5},
     "stack_backtrack": {"grammars": ['a = { PUSH("x") ~ ((POP)? ~ "z" | PEEK) }', 'a = { PUSH("x") ~ PUSH("y") ~ (POP ~ POP ~ "z" | PEEK) }', 'a = { PUSH("x") ~ (POP_ALL ~ "z" | PEEK ~ "y") }', 'a = { PUSH("x") ~ !(POP ~ "z") ~ &(DROP) ~ PEEK }', 'a = { PUSH("x") ~ (PUSH("y") ~ "z")* ~ PEEK_ALL }', 'a = { PUSH("x") ~ (DROP ~ "z")? ~ (PUSH("y") ~ "z" | PEEK_ALL) }'], "alphabet": "xyz", "n": 5},
     "optimizer_skip": {"grammars": ['s = @{ (!"a" ~ ANY)* }\na = @{ (!s ~ ANY)* ~ "x" }', 'r = @{ (!("b" | "ab") ~ ANY)* }\na = { r ~ ANY* }', 'nl = _{ "\\n" | "\\r\\n" }\nr = @{ (!nl ~ ANY)* }\na = { r ~ nl? ~ r }', 'WHITESPACE = _{ " " }\na = { (!"b" ~ ANY)* ~ "b"? }', 'a = { (!("x" ~ "y") ~ ANY)* ~ ANY* }', 'WHITESPACE = _{ " " }\nr = @{ (!"b" ~ ANY)* }\na = { r ~ "b" }'], "alphabet": "ab \n\rxy", "n": 4},
-    "optimizer_squash": {"grammars": ['y = { "y" }\nb = _{ "x" | y }\na = { (b | "z")+ }', 'a = { ("x" | "xy") ~ "y"? ~ "z" }', 'a = { (^"xy" | "xyz") ~ "z"? }', 'a = { ("xy" | "x" | \'y\'..\'z\') ~ "z" }', 'b = _{ "x" | "xy" }\na = { b ~ "y" }', 'a = { (ASCII_DIGIT | "x" | "xy")+ }'], "alphabet": "xyzXY1", "n": 4},
+    "optimizer_squash": {"grammars": ['a = { ("x" | ^"xy") ~ "z" }', "a = { ('x'..'y' | ^\"xy\" | \"z\") ~ \"z\" }", 'y = { "y" }\nb = _{ "x" | y }\na = { (b | "z")+ }', 'a = { ("x" | "xy") ~ "y"? ~ "z" }', 'a = { (^"xy" | "xyz") ~ "z"? }', 'a = { ("xy" | "x" | \'y\'..\'z\') ~ "z" }', 'b = _{ "x" | "xy" }\na = { b ~ "y" }', 'a = { (ASCII_DIGIT | "x" | "xy")+ }'], "alphabet": "xyzXY1", "n": 4},
     "optimizer_ranges": {"grammars": ["a = { ('w'..'z' | 'x'..'y')+ }", "a = { (ASCII_ALPHANUMERIC | 'x'..'y')+ ~ \"!\"? }", "a = { ('x'..'y' | 'w'..'z' | \"!\")+ }"], "alphabet": "wxyz!", "n": 3},
     "optimizer_inline": {"grammars": ['COMMENT = _{ "x" ~ "y" }\na = { COMMENT }', 'c = { "x" }\ns = _{ c ~ "y" }\na = { #tt=s ~ s? }', 'c = { "x" }\na = { #tt=(c)+ }', 's = _{ "x" ~ s? ~ "y" }\na = { s }', 'WHITESPACE = _{ " " }\ns = _{ "x" ~ "y" }\na = @{ s ~ s }'], "alphabet": "xy ", "n": 5},
     "optimizer_unicode": {"grammars": ['a = { (LETTER | "_") ~ (LETTER | ASCII_DIGIT | "_")* }', 'a = { (HAN | "x" | "xy")+ }'], "alphabet": "x_1\u00e9\u4e00", "n": 3},
